@@ -449,7 +449,16 @@ func (s *sender) sendFin() error {
 	}{&pkt, time.Time{}})
 
 	if addToSendQueue {
-		s.sendQueue <- &pkt
+		// Close holds the tube's lifecycle lock, and the goroutine that
+		// drains this queue takes the same lock on every retransmission tick: a
+		// blocking send on a full queue would deadlock the two (and with them the
+		// muxer's receiver). The FIN is in the retransmission buffer already; one
+		// that does not fit in the queue is sent by the retransmission timer like
+		// a frame that was lost.
+		select {
+		case s.sendQueue <- &pkt:
+		default:
+		}
 	}
 
 	return nil
